@@ -60,12 +60,16 @@ structure Sink where
   items : List Item := []
   heads : Nat := 0                -- number of WriteHeader calls made on the underlying writer
   flushes : Nat := 0
+  flushedN : Option Nat := none   -- number of items written when `Flush` was last called
   /-- gRPC status written into a header map is kept abstract, next to the map -/
   hdrEnd : Option RpcErr := none  -- Some = `Grpc-Status` etc. present in `hdr` with this value
   hdrEndSet : Bool := false
   trailerEnd : Option RpcErr := none
   trailerEndSet : Bool := false
   deriving Repr
+
+/-- `http.Flusher.Flush` on the client's writer: everything written so far is on the wire. -/
+def Sink.flush (k : Sink) : Sink := { k with flushes := k.flushes + 1, flushedN := some k.items.length }
 
 def Sink.writeHeader (k : Sink) (code : Nat) : Sink :=
   if k.status.isSome then { k with heads := k.heads + 1 }
@@ -299,7 +303,7 @@ def reportEnd (w : World) (st : St) (e : RespEnd) : St × Bool :=
     else
       let rm := (st.rw.respMeta.getD {})
       flushHeaders w { st with rw := { st.rw with respMeta := some { rm with «end» := some e } } }
-  ({ st with sink := { st.sink with flushes := st.sink.flushes + 1 }, rw := { st.rw with err := true } }, p)
+  ({ st with sink := st.sink.flush, rw := { st.rw with err := true } }, p)
 
 /-- `responseWriter.reportError`. -/
 def reportError (w : World) (st : St) (err : Err) : St × Bool :=
@@ -323,7 +327,7 @@ def writeDown (w : World) (st : St) (b : Bytes) : St × Bool × Bool :=   -- (st
 
 /-- `responseWriter.flushMessage`. -/
 def flushMessage (st : St) : St :=
-  if st.rw.buf.isSome then st else { st with sink := { st.sink with flushes := st.sink.flushes + 1 } }
+  if st.rw.buf.isSome then st else { st with sink := st.sink.flush }
 
 /-- `bytes.Split(b, "\r\n")`. -/
 def splitCRLF : Bytes → List Bytes
